@@ -99,7 +99,7 @@ type SourceScript struct {
 	// "~late:<name>.ackrecv", which sorts after every other alternative (the engine's ack sender stays blocked in Send
 	// until nothing else can run).
 	LateAckRecv bool
-	Faults                           bool
+	Faults      bool
 	// PositionOf overrides the position bytes of a record (C09 shapes: empty / duplicate positions).
 	PositionOf func(i int) opencdc.Position
 	// NoMatch lists record indices carrying metadata verif.match=n (all others y): processor conditions
@@ -469,13 +469,13 @@ func (d *Dest) Run(ctx context.Context, stream pconnector.DestinationRunStream) 
 		}
 		resp := pconnector.DestinationRunResponse{Acks: held}
 		logs := heldLog
-		if a != "defer" {
+		if a != "defer" && a != "defernack" {
 			held, heldLog = nil, nil
 		}
 		for i, r := range recs {
 			src, idx, _, piece := Ident(r)
 			ack := pconnector.DestinationRunResponseAck{Position: r.Position}
-			rejected := a == "nack" || (strings.HasPrefix(a, "n:") && i < len(a)-2 && a[2+i] == '1')
+			rejected := a == "nack" || a == "defernack" || (strings.HasPrefix(a, "n:") && i < len(a)-2 && a[2+i] == '1')
 			if rejected {
 				ack.Error = "rejected by " + d.S.Name
 			}
@@ -496,7 +496,7 @@ func (d *Dest) Run(ctx context.Context, stream pconnector.DestinationRunStream) 
 			logs = append(logs, func() { d.W.Log(d.S.Name, kind, idx, arg) })
 			resp.Acks = append(resp.Acks, ack)
 		}
-		if a == "defer" { // a batching destination: confirm this write together with a later one (or on Stop)
+		if a == "defer" || a == "defernack" { // a batching destination: confirm this write together with a later one (or on Stop)
 			held, heldLog = resp.Acks, logs
 			// like the SDK's batching write strategy: a partial batch is flushed after the batch delay (1s, virtual)
 			time.AfterFunc(time.Second, func() {
